@@ -192,7 +192,8 @@ CHECKS = {
   "text": "Proved on VFile.v: the link split loses no page, one link per BOS-delimited segment, lengths/initial offsets non-negative, total = sum of links; for one link at full rate, reading any intact run of packets and then the "
           "end-of-stream packet delivers exactly the samples up to the position the last granule position names and leaves the reported position at the link's end "
           "(Sync_lemmas.v: blockin_eos, link_read_to_end); a freshly opened handle at the start of an intact link is in sync at position 0 after its first fetch "
-          "(executable hypotheses start_hyps). "
+          "(executable hypotheses start_hyps); linear reading CROSSES link boundaries: the fetch that meets the next link's first page dumps the decoder, enters "
+          "that link, skips its header packets and leaves the handle in sync at position 0 of the new link (Cross_lemmas.v). "
           "Per run: 1..12-link files (zero-sample, single-page links, differing rates/channels) - link table compared with an independent decode and the model; "
           "the linear read must deliver every link completely, in order, bit-identical, without error returns.",
   "note": VF_NOTE,
